@@ -124,6 +124,7 @@ PROPS["C01"] = {
     "level": "proof",
     "verus": {"pool": POOL_FNS},
     "assumptions": [
+        "row streams (table data): Table::write_rows is proved to store every valid cell (i, c) as the format's bytes at n*width(columns < c) + i*width(c) (group serial), Table::read_rows to read exactly that cell back for any stream (group rows), and lemma_rows_pair / lemma_cell_pair (group rows, over the shared writer-format text prelude/cellfmt.rs) that the two formats are inverse: for any table with at least one column, any number of rows and any valid cell values, what write_rows stores read_rows returns",
         "only the encode/decode pairs the whole-history statement rests on are decided, plus the save step itself on a container model (group finish: FinishImpl::finish / Package::flush leave no part marked modified on Ok and clear a mark only with a completed write); drop logic, crash points, Package::open reconstruction, save/reopen idempotence and streams need the cfb container and are NOT covered",
         "cfb stores and returns stream bytes faithfully",
         "StringPool::incref is a trusted contract in the Verus group (iter_mut().enumerate()); checked bounded by kani:pool_incref_2slots",
@@ -171,7 +172,8 @@ PROPS["C19"] = {
 
 SERIAL_FNS = ["lemma_pool_bytes_is_pf", "StringRef::write", "ColumnType::write_value", "ColumnType::width", "Column::coltype",
               "Table::write_rows", "StringPool::write_pool", "StringPool::write_data",
-              "lemma_offset16", "lemma_offset32", "lemma_ref_split"]
+              "lemma_offset16", "lemma_offset32", "lemma_ref_split", "lemma_row_width_nonneg", "lemma_row_width_mono",
+              "lemma_prefix_keeps"]
 PROPS["C01"]["verus"]["serial"] = SERIAL_FNS
 PROPS["C08"]["verus"]["serial"] = SERIAL_FNS
 
@@ -209,7 +211,7 @@ PROPS["C18"]["probes"] = {"timestamp_from_system_time": ["time"], "system_time_f
 ROWS_FNS = ["Table::read_rows", "Column::coltype", "lemma_row_width_bounds", "lemma_row_width_mono", "lemma_mul_step", "lemma_mul_dist", "lemma_mul_mono", "lemma_div_mul"]
 PROPS["C02"]["verus"]["rows"] = ROWS_FNS
 PROPS["C09"]["verus"]["rows"] = ROWS_FNS
-PROPS["C01"]["verus"]["rows"] = ["Table::read_rows"]
+PROPS["C01"]["verus"]["rows"] = ["Table::read_rows", "lemma_cell_pair", "lemma_rows_pair", "lemma_le16_rt", "lemma_le32_rt", "lemma_ref_rt"]
 PROPS["C01"]["verus"]["finish"] = ["FinishImpl::finish", "Package::flush"]
 PROPS["C01"]["verus"]["readers"] = ["StringRef::read", "ColumnType::read_value", "Timestamp::read_from", "PropertyValue::read",
                                     "StringPoolBuilder::read_from_pool", "lemma_le16_roundtrip", "lemma_parse_entry",
